@@ -54,19 +54,19 @@ func valHTTP(c *Ctx, rt, wt, it, mnw, dnw, msi int64) {
 		show(v)+" idem="+b01(show(w) == show(v)))
 }
 
-func valUDP(c *Ctx, keyEmpty bool, mnw, dnw, msi int64) {
+func valUDP(c *Ctx, keyEmpty bool, mnw, dnw, msi, skew int64) {
 	key := "k"
 	if keyEmpty {
 		key = ""
 	}
-	cfg := udpfe.Config{PrivateKey: key, ParseOptions: udpfe.ParseOptions{MaxNumWant: uint32(mnw), DefaultNumWant: uint32(dnw), MaxScrapeInfoHashes: uint32(msi)}}
+	cfg := udpfe.Config{PrivateKey: key, MaxClockSkew: time.Duration(skew), ParseOptions: udpfe.ParseOptions{MaxNumWant: uint32(mnw), DefaultNumWant: uint32(dnw), MaxScrapeInfoHashes: uint32(msi)}}
 	v := cfg.Validate()
 	w := v.Validate()
 	show := func(x udpfe.Config) string {
-		return fmt.Sprintf("PrivateKeyEmpty=%s MaxNumWant=%d DefaultNumWant=%d MaxScrapeInfoHashes=%d", b01(x.PrivateKey == ""), x.MaxNumWant, x.DefaultNumWant, x.MaxScrapeInfoHashes)
+		return fmt.Sprintf("PrivateKeyEmpty=%s MaxNumWant=%d DefaultNumWant=%d MaxScrapeInfoHashes=%d MaxClockSkew=%d", b01(x.PrivateKey == ""), x.MaxNumWant, x.DefaultNumWant, x.MaxScrapeInfoHashes, int64(x.MaxClockSkew))
 	}
 	idem := show(w) == show(v) && w.PrivateKey == v.PrivateKey
-	c.Emit(fmt.Sprintf("cfg.validate pkg=udp PrivateKeyEmpty=%s MaxNumWant=%d DefaultNumWant=%d MaxScrapeInfoHashes=%d", b01(keyEmpty), mnw, dnw, msi),
+	c.Emit(fmt.Sprintf("cfg.validate pkg=udp PrivateKeyEmpty=%s MaxNumWant=%d DefaultNumWant=%d MaxScrapeInfoHashes=%d MaxClockSkew=%d", b01(keyEmpty), mnw, dnw, msi, skew),
 		show(v)+" idem="+b01(idem))
 }
 
@@ -400,7 +400,7 @@ func replayC20(c *Ctx, op string, a map[string]string) {
 		case "http":
 			valHTTP(c, geti("ReadTimeout"), geti("WriteTimeout"), geti("IdleTimeout"), geti("MaxNumWant"), geti("DefaultNumWant"), geti("MaxScrapeInfoHashes"))
 		case "udp":
-			valUDP(c, a["PrivateKeyEmpty"] == "1", geti("MaxNumWant"), geti("DefaultNumWant"), geti("MaxScrapeInfoHashes"))
+			valUDP(c, a["PrivateKeyEmpty"] == "1", geti("MaxNumWant"), geti("DefaultNumWant"), geti("MaxScrapeInfoHashes"), geti("MaxClockSkew"))
 		case "memory":
 			valMem(c, geti("ShardCount"), geti("GarbageCollectionInterval"), geti("PrometheusReportingInterval"), geti("PeerLifetime"))
 		case "redis":
@@ -464,7 +464,7 @@ func runC20(c *Ctx) {
 	for _, a := range u32Vals {
 		for _, b := range u32Vals {
 			for _, d := range u32Vals {
-				valUDP(c, (a+b+d)%2 == 0, a, b, d)
+				valUDP(c, (a+b+d)%2 == 0, a, b, d, []int64{0, 10e9, -1, -10e9, -300e9, 1, math.MinInt64, math.MaxInt64}[int(uint64(a*7+b*3+d)%8)])
 			}
 		}
 	}
